@@ -118,6 +118,15 @@ CHECKS = {
              'async with suspending middlewares} run on the real dispatchers; per-element enter/exit/handler event sequences '
              '(with the objects handed over), executions and the response sent are compared with the model.',
         note='trusted: the model in vmon/monitors/c12.py + vmon/models/server.py; probes do not raise'),
+    'C15': dict(
+        category='exploration', design_ref='DESIGN.md §3 C15',
+        technique='runtime monitor: registration histories vs name model, probed with real requests (own-token targets)',
+        text='Histories of add / add(name=) / add_methods / view / merge / attach / dispatcher.add / dispatcher.view over '
+             'registries with prefixes None, "a", "a.b" (<= 3 operations enumerated over a reduced alphabet, <= 6 sampled, '
+             'crafted three-level and same-prefix merges and re-registrations) are executed on both dispatchers; every model '
+             'name, every name one edit away and every private / dunder / non-callable view member under every prefix in play '
+             'is requested and the reached target token (or -32601) compared with the model; the registry key set too.',
+        note='trusted: the name model inside vmon/monitors/c15.py; add_methods(Method) under a prefix is not judged'),
 }
 
 NOT_BUILT_REASON = 'no check registered yet in this round (monitor under construction, see DESIGN.md §3)'
